@@ -320,6 +320,34 @@ fn run(case: &Case, out: &mut Out) {
                         "{got} of {n} worker responses delivered (in order: {inorder}) on a {init}/{max} command channel under back-pressure"));
                 }
             }
+            // black-box: an answer that alone exceeds the ceiling (lib/src/server.rs send_queue). The worker must
+            // answer that request with an error and go on answering the requests behind it.
+            "bb_oversize" => {
+                let (init, max) = (a[0].n() as u64, a[1].n() as u64);
+                let (big, later) = bb_oversize(init, max, out);
+                out.obs(&[ts(&big), ts(if later { "later_answered" } else { "later_unanswered" })]);
+                if big != "failure" {
+                    out.viol("oversize-answer-no-verdict", &format!(
+                        "the request whose answer does not fit the {max}-byte command channel was answered '{big}' (an error answer is expected)"));
+                }
+                if !later {
+                    out.viol("oversize-answer-wedges-worker", &format!(
+                        "after an answer larger than the {max}-byte ceiling the worker answered no further request on its command channel"));
+                }
+            }
+            // Channel::into (the worker re-types its channel after the blocking handshake, bin/src/worker.rs):
+            // everything buffered, read or unsent, must survive
+            "retype" => {
+                let s = st_.as_mut().unwrap();
+                // SAFETY: the value is moved out and a value is written back before anything can observe the hole
+                // (`into` only moves fields)
+                unsafe {
+                    let c: Chan = std::ptr::read(&s.chan);
+                    let c2: Chan = c.into::<WorkerResponse, WorkerResponse>();
+                    std::ptr::write(&mut s.chan, c2);
+                }
+                out.obs(&st(&s.chan));
+            }
             // blocking-mode read with a short timeout (all bytes the case sends are
             // already in the socket, so it never waits unless the frame is incomplete)
             "read_b" => {
@@ -528,6 +556,58 @@ fn bb_worker(init: u64, max: u64, n: usize, pause_ms: u64, out: &mut Out) -> (us
     }
     let inorder = ids.iter().enumerate().all(|(i, id)| *id == bb_request_id(i, max));
     (ids.len(), inorder)
+}
+
+/// returns (how the oversized request was answered: "failure" | "ok" | "none", whether the request sent after it was answered)
+fn bb_oversize(init: u64, max: u64, out: &mut Out) -> (String, bool) {
+    use sozu_command_lib::config::ListenerBuilder;
+    use sozu_command_lib::proto::command::{request::RequestType, QueryMetricsOptions, ResponseStatus, SocketAddress, Status, WorkerRequest};
+    use std::time::Duration;
+    let port = verif_harness::claim_port();
+    let http_listener = ListenerBuilder::new_http(SocketAddress::new_v4(127, 0, 0, 1, port)).to_http(None).expect("listener");
+    let (mut command, proxy): (Channel<WorkerRequest, WorkerResponse>, Channel<WorkerResponse, WorkerRequest>) =
+        Channel::generate(init, max).expect("channel pair");
+    std::thread::spawn(move || {
+        let _ = sozu_lib::http::testing::start_http_worker(http_listener, proxy, 10, 16_384);
+    });
+    let small = |id: &str| WorkerRequest { id: id.to_owned(), content: RequestType::Status(Status {}).into() };
+    if let Err(e) = command.write_message(&small("SMALL-1")) {
+        out.note(&format!("invalid-case: cannot write the first request: {e}"));
+        return ("none".into(), false);
+    }
+    match command.read_message_blocking_timeout(Some(Duration::from_secs(8))) {
+        Ok(r) if r.id == "SMALL-1" => {}
+        _ => {
+            out.note("invalid-case: the worker did not answer the warm-up request");
+            return ("none".into(), false);
+        }
+    }
+    // the names of all available metrics: some kilobytes, above the ceilings this op is used with
+    let bigreq = WorkerRequest {
+        id: "BIG".to_owned(),
+        content: RequestType::QueryMetrics(QueryMetricsOptions {
+            list: true, cluster_ids: vec![], backend_ids: vec![], metric_names: vec![], no_clusters: false, workers: false,
+        }).into(),
+    };
+    let _ = command.write_message(&bigreq);
+    std::thread::sleep(Duration::from_millis(200));
+    let _ = command.write_message(&small("SMALL-2"));
+    let (mut big, mut later) = ("none".to_string(), false);
+    let t0 = std::time::Instant::now();
+    while t0.elapsed() < Duration::from_secs(6) && !later {
+        match command.read_message_blocking_timeout(Some(Duration::from_secs(3))) {
+            Ok(r) => {
+                if r.id.starts_with("BIG") && r.status != ResponseStatus::Processing as i32 {
+                    big = if r.status == ResponseStatus::Failure as i32 { "failure".into() } else { "ok".into() };
+                }
+                if r.id == "SMALL-2" {
+                    later = true;
+                }
+            }
+            Err(_) => break,
+        }
+    }
+    (big, later)
 }
 
 fn a_init(case: &Case) -> usize {
